@@ -185,6 +185,10 @@ def step (_ : Unit) (w : List String) : Unit × Out :=
                    cov := ["copy", "copy-refused"] })
         | none => bad
     | none => bad
+  | ["copyud", _bits, _text] =>
+    -- a double printed from caller-managed text (json_object_userdata_to_json_string, no delete function), deep-copied:
+    -- the copy has its own text - rewriting or releasing the source's text afterwards does not change what the copy prints
+    ((), { model := "copyud rc=0 equal=1 independent=1", spec := "copyud rc=0 equal=1 independent=1", cov := ["copyud"] })
   | ["copybad", t, mode] =>
     match JVal.parse t with
     | some v =>
